@@ -185,7 +185,17 @@ fn oneshot_encode(ch: &mut Chooser, ctx: &mut Ctx, op_no: usize) {
     let adm = encode_adm(k, r, &lens);
     ctx.distinct(&[0x05E, u64::from(adm.is_empty()), n.cmp(&k) as u64, (b % 64 != 0) as u64, adm.first().map_or(0, err_code)]);
 
-    let got = ctx.guarded(false, || reed_solomon_simd::encode(k, r, &items));
+    let iter_kind = ch.pick("os.enc.iterkind", 4);
+    ctx.count(["oneshot.iter_exact", "oneshot.iter_filter", "oneshot.iter_unsized", "oneshot.iter_owned"][iter_kind as usize]);
+    let got = ctx.guarded(false, || match iter_kind {
+        0 => reed_solomon_simd::encode(k, r, &items),
+        1 => reed_solomon_simd::encode(k, r, items.iter().filter(|_| true)),
+        2 => {
+            let mut it = items.iter();
+            reed_solomon_simd::encode(k, r, std::iter::from_fn(move || it.next()))
+        }
+        _ => reed_solomon_simd::encode(k, r, items.clone()),
+    });
     let got = match got {
         Ok(v) => v,
         Err(msg) => {
@@ -348,7 +358,20 @@ fn oneshot_decode(ch: &mut Chooser, ctx: &mut Ctx, op_no: usize) {
     let adm = decode_adm(k, r, &o_meta, &r_meta);
     ctx.distinct(&[0x0D0, u64::from(adm.is_empty()), mode as u64, n_faults as u64, u64::from(rec.is_empty()), adm.first().map_or(0, err_code)]);
 
-    let got = ctx.guarded(false, || reed_solomon_simd::decode(k, r, orig.iter().map(|(i, s)| (*i, &s[..])), rec.iter().map(|(i, s)| (*i, &s[..]))));
+    // the arguments are `IntoIterator`s: the same items are handed over through iterators of different kinds
+    // (exact size hint, no lower bound, unknown upper bound, owned items); the outcome must not depend on that
+    let iter_kind = ch.pick("os.dec.iterkind", 4);
+    ctx.count(["oneshot.iter_exact", "oneshot.iter_filter", "oneshot.iter_unsized", "oneshot.iter_owned"][iter_kind as usize]);
+    let got = ctx.guarded(false, || match iter_kind {
+        0 => reed_solomon_simd::decode(k, r, orig.iter().map(|(i, s)| (*i, &s[..])), rec.iter().map(|(i, s)| (*i, &s[..]))),
+        1 => reed_solomon_simd::decode(k, r, orig.iter().filter(|_| true).map(|(i, s)| (*i, &s[..])), rec.iter().filter(|_| true).map(|(i, s)| (*i, &s[..]))),
+        2 => {
+            let mut oi = orig.iter();
+            let mut ri = rec.iter();
+            reed_solomon_simd::decode(k, r, std::iter::from_fn(move || oi.next().map(|(i, s)| (*i, &s[..]))), std::iter::from_fn(move || ri.next().map(|(i, s)| (*i, &s[..]))))
+        }
+        _ => reed_solomon_simd::decode(k, r, orig.clone(), rec.clone()),
+    });
     let got = match got {
         Ok(v) => v.map(|m| m.into_iter().collect::<BTreeMap<usize, Vec<u8>>>()),
         Err(msg) => {
